@@ -8,7 +8,7 @@ from .. import core, rf, rfrun, stage, universe as U
 PID = "C11"
 
 N, D, FC, SC = 10, 3, 1000, 2
-BASE_MS = 1394368230000 // 2000 * 2000  # file index 0
+BASE_MS = 1394333998000 // 2000 * 2000  # file index 0
 DIRS = ("A", "B", "C")
 
 MISMATCHES = {
@@ -171,7 +171,7 @@ def run_history(args):
     mode, hist = args
     seed = core.seed()
     part = core.new_part()
-    root = core.new_scratch()
+    root = core.new_scratch(long_path=(mode == "gapped"))
     case = {"mode": mode, "history": hist, "seed": seed}
     base_cfg = rf.Cfg(n=N, d=D, fc=FC, sc=SC, **U.MODES[mode])
 
@@ -313,9 +313,10 @@ def main(tier):
     stage.activate()
     hists = enumerate_histories(depth)
     if tier != "quick":
-        # depth 4 is large: keep all depth<=3 and depth-4 histories whose 4th session is not a mismatch
-        hists = [h for h in hists if len(h) <= 3 or h[-1][1] != "mismatch"]
-    jobs = [(mode, h) for mode in ("gapped", "cont") for h in hists]
+        # depth 4 is large (226k sequences): keep every sequence of depth <= 3, and the depth-4 sequences that
+        # start with a two-period first session and contain no parameter mismatch (those are covered at depth <= 3)
+        hists = [h for h in hists if len(h) <= 3 or (h[0][2] in ("two_periods", "two_periods_b") and all(x[1] != "mismatch" for x in h))]
+    jobs = [(mode, h) for mode in ("gapped", "cont") for h in hists if len(h) <= 3 or mode == "gapped"]
     rot = core.seed() % max(1, len(jobs))
     jobs = jobs[rot:] + jobs[:rot]
     for part in core.pmap(run_history, jobs, chunksize=8):
